@@ -455,6 +455,12 @@ def cases(thorough: bool) -> List[dict]:
         for sp in spellings:
             for ident in ("CIRCUIT_1", "R{R=1}(R{R=2}C{C=1e-3})"):
                 out.append({"cmd": "identity", "spec": f"{ident}:{key}={sp},seed=3", "ident": ident, "kw": {key: float(sp), "seed": 3}})
+    # integer values at the boundaries of the machine ranges
+    for sp in ("0", "1", str(2 ** 31), str(2 ** 32 - 1), str(2 ** 32 + 5), str(2 ** 53), str(2 ** 53 + 1), str(2 ** 63 - 1), "1759000000123456789"):
+        for ident in ("CIRCUIT_1", "R{R=1}(R{R=2}C{C=1e-3})"):
+            out.append({"cmd": "identity", "spec": f"{ident}:noise=0.5,seed={sp}", "ident": ident, "kw": {"noise": 0.5, "seed": int(sp)}})
+    for sp in ("1", "2", "100"):
+        out.append({"cmd": "identity", "spec": f"CIRCUIT_1:num_per_decade={sp}", "ident": "CIRCUIT_1", "kw": {"num_per_decade": int(sp)}})
     for bad in ("CIRCUIT_1:noise", "CIRCUIT_1:noise=", "CIRCUIT_1:bogus=1", "CIRCUIT_1:seed=1.5", "CIRCUIT_1:noise=abc", "CIRCUIT_1:noise=1,,seed=2"):
         out.append({"cmd": "identity", "spec": bad, "malformed": True})
     return out
@@ -468,7 +474,7 @@ def run(ctx) -> None:
                 "to files, --average; circuit --simulate: 6 CDCs x 2 frequency ranges x points per decade x plot type (plotted data sets captured by "
                 "wrapping the plot functions); fit: 2 circuits x method/weight pairs x num-refinements {0,1} x running-count x 3 formats; drt: tr-nnls "
                 "(2 modes / lambda modes) and lm x formats x filters; mock specifiers: every subset of the six keys in two (all, for <= 3 keys in "
-                "thorough) orders on three identifiers, 16 alternative spellings of the numeric values (exponent notation, sign, no leading zero), and malformed specifiers. Oracle: the corresponding API call with the same settings in "
+                "thorough) orders on three identifiers, 16 alternative spellings of the numeric values (exponent notation, sign, no leading zero), integer values at machine-range boundaries (0, 2^31, 2^32 +- , 2^53 + 1, 2^63 - 1), and malformed specifiers. Oracle: the corresponding API call with the same settings in "
                 "the same process (csv exact, json to its 10 printed decimals, md to the printed digits).")
     ctx.exhaustive = True
     ctx.assumptions = ["commands run in-process (three sub-process runs are left to the repository's own CLI tests)", "fit/drt are deterministic for the methods used"]
